@@ -11,7 +11,6 @@ import (
 	sdk "github.com/cosmos/cosmos-sdk/types"
 
 	transfertypes "github.com/cosmos/ibc-go/v11/modules/apps/transfer/types"
-	channeltypesv2 "github.com/cosmos/ibc-go/v11/modules/core/04-channel/v2/types"
 
 	"verif/harness/ksim"
 )
@@ -500,5 +499,3 @@ func storesDiff(pre, post *ksim.World, c int) []string {
 	sort.Strings(d)
 	return d
 }
-
-var _ = channeltypesv2.ErrorAcknowledgement
